@@ -198,13 +198,20 @@ class OPA(BaseModelSingleSet):
         # -> target (feature1 x dummy)
 
         # Solve the symmetric eigenvalue problem
-        eigensolver = Decomposer(
-            n_modes=self._params["n_modes"], flip_signs=False, solver="full"
+        # np.linalg.eigh: signed eigenvalues in ascending order (an SVD would return
+        # |eigenvalues| and order the modes by absolute value)
+        lbda, U = xr.apply_ufunc(
+            np.linalg.eigh,
+            target,
+            input_core_dims=[("feature1", "dummy")],
+            output_core_dims=[("mode",), ("feature1", "mode")],
+            dask="allowed",
         )
-        eigensolver.fit(target, dims=("feature1", "dummy"))
-        U = eigensolver.U_
+        keep = slice(None, -self._params["n_modes"] - 1, -1)
+        mode_coords = range(1, self._params["n_modes"] + 1)
+        U = U.isel(mode=keep).assign_coords(mode=mode_coords)
         # -> U (feature1 x mode)
-        lbda = eigensolver.s_
+        lbda = lbda.isel(mode=keep).assign_coords(mode=mode_coords)
         # -> lbda (mode)
         # U, lbda, ct = xr.apply_ufunc(
         #     np.linalg.svd,
